@@ -41,6 +41,8 @@ template<typename T> auto with_default(T defs)
 {
     if constexpr (std::is_same_v<std::string, T>)
         return cxxopts::value<T>()->default_value(defs);
+    else if constexpr (std::is_floating_point_v<T>)
+        return cxxopts::value<T>()->default_value(fmt::format("{}", defs));
     else
         return cxxopts::value<T>()->default_value(std::to_string(defs));
 }
